@@ -8,7 +8,7 @@ INFO = ("YRender (TLA+ reference): a tape-driven renderer from abstract node tre
         "denotes (block sequences/mappings: implicit, explicit '?', compact, sequences at the key's indentation, indent 1-3 per level, same-line/next-line placement, empty keys and "
         "values, explicit keys without a ':' line, flow collections as implicit keys, tabs as separation after '-', '?', ':' and before comments, block scalars and multi-line "
         "flow scalars as entries, values, keys and document roots; flow sequences/mappings: single pairs, empty key/value, explicit keys, multi-line layout, trailing commas; properties in both orders and on their own line, aliases, "
-        "comments, blank lines, document markers, %YAML, a %TAG redefinition of '!!' for one document, bare documents after '...'). TLC enumerates every tape of length 5 over 8 choices (Gen_Render, breadth-first) and simulates long random tapes; each "
+        "comments, blank lines, document markers, %YAML, a %TAG redefinition of '!!' and '!' for one document, the non-specific tag '!', implicit keys of 1023 and 1024 characters, bare documents after '...'). TLC enumerates every tape of length 5 over 8 choices (Gen_Render, breadth-first) and simulates long random tapes; each "
         "behaviour (text + denoted events) is replayed on the real parser through both back-ends and compared event by event (kind, value, style, anchor, tag), also with the final line break removed when it does not belong to a block scalar. In the model, "
         "the implementation-shaped scanner/parser must read each rendered text as the denoted events (cross-check of renderer and model; disagreement = drift). "
         "Plus the 308 non-error yaml-test-suite cases with the suite's event trees and their CRLF / CR / appended '...' / appended comment variants.",
